@@ -8,8 +8,14 @@ CLAIMED={
  "C11":("exploration","Seeded search over transaction histories; a governance monitor written from the statement judges every response.","§3 C11"),
  "C12":("exploration","Seeded search over check-in / config histories; updates folded into the real Tendermint ValidatorSet and compared with a ledger-based reference.","§3 C12"),
  "C13":("fault_enumeration","For each generated history every crash point of the base run (every file-system operation of every save, every block boundary) is enumerated; histories themselves are sampled.","§3 C13"),
+ "C14":("exploration","Seeded sampling of event values and RPC corruptions through the real encoder/decoder pair; input sampling by a simulated faulty RPC, labelled as such.","§3 C14"),
+ "C17":("exploration","Seeded sampling of definitions x hostile logs by a simulated hostile contract, real codec/matcher vs a reference written from docs/event.md, panic guard, allocation meter, node-side filter.","§3 C17"),
+ "C18":("exploration","Adversarial HTTP client against the real router in a synctest bubble, x map iteration orders; input sampling apart from the map-order dimension.","§3 C18"),
 }
 NOTES={
+ "C14":"Tendermint transports attributes as opaque strings; keyper-table effects are covered by World B checks once built",
+ "C17":"eth_getLogs filter semantics modelled in ref.FilterPasses; allocation bound 8MiB+1KiB/byte",
+ "C18":"database-backed read-only handlers are exercised for routing only (nil pool)",
  "C09":"stub consensus delivers identical blocks; overlay rewrites all range-over-map sites; Log/Info free-text excluded",
  "C10":"no-effect judged on the projection named in the statement; Log/Info free-text excluded",
  "C11":"thresholds within 0..n+1 (the quantifier); monitor is the most permissive reading of the statement",
